@@ -9,8 +9,21 @@ strings (duplicate emissions are pinned too).  No floats anywhere.
 
 Oracle: the declarative rule of the property stated directly in Python over index pairs
 (brute force over all substrings), independent of both the code's loops and the model.
+
+Second kind of case ("config"): the digestion AS CONFIGURED.  DigestionParams(...) with every subset of its
+arguments given (falsy values included), the real argparse options of add_digestion_arguments ->
+get_digestion_params_list (defaults of absent options, broadcast of single values), then
+digest.get_peptide_to_protein_map_from_params / get_num_ibaq_peptides_per_protein in process and the command line
+tool digest.main with each non-empty combination of --prosit_input / --peptide_protein_map / --ibaq_map; every
+result is read back PER PROTEIN and compared with PgFdr.C08.mkParams / paramsList / configMap / cliMain of the
+model and, by the oracle, with the same brute-force rule instantiated with the configured values.
 """
+import argparse
+import csv
 import itertools
+import os
+import sys
+import tempfile
 
 import lib
 from lib import Prop
@@ -89,6 +102,95 @@ def eff_mode(m):
     return m if m in ("semi", "none") else "full"
 
 
+# ---------------------------------------------------------------------------------- configured digestion
+SIG = ("enzyme", "digestion", "min", "max", "mc", "special", "contains_decoys")  # DigestionParams.__init__ order
+KW = {"enzyme": "enzyme", "digestion": "digestion", "min": "min_length", "max": "max_length", "mc": "cleavages",
+      "special": "special_aas", "contains_decoys": "fasta_contains_decoys"}
+FLAG = {"enzyme": "--enzyme", "digestion": "--digestion", "min": "--min-length", "max": "--max-length",
+        "mc": "--cleavages", "special": "--special-aas"}
+DEFAULT_NAME = {"enzyme": "ENZYME_DEFAULT", "digestion": "DIGESTION_DEFAULT", "min": "MIN_PEPLEN_DEFAULT",
+                "max": "MAX_PEPLEN_DEFAULT", "mc": "CLEAVAGES_DEFAULT", "special": "SPECIAL_AAS_DEFAULT"}
+COMBOS = [[p, m, i] for p in (False, True) for m in (False, True) for i in (False, True) if p or m or i]
+ID_POOL = ("P1", "sp|Q2|B_HUMAN", "P3", "CON__P4", "tr|A5|E_MOUSE", "P6")
+
+
+def _source_defaults():
+    """the documented defaults: the *_DEFAULT constants read from the source text of digestion_params.py"""
+    if "defaults" not in _SRC:
+        import tables
+
+        c = tables.module_constants(lib.REPO / "picked_group_fdr" / "digestion_params.py")
+        _SRC["defaults"] = {k: c[v] for k, v in DEFAULT_NAME.items()}
+    return _SRC["defaults"]
+
+
+def decoy(seq, special):
+    """the generated decoy protein: reversed, then every special residue swapped with its predecessor"""
+    s = list(seq[::-1])
+    for i in range(1, len(s)):
+        if s[i] in special:
+            s[i], s[i - 1] = s[i - 1], s[i]
+    return "".join(s)
+
+
+def configured_sets(opts):
+    """the parameter sets a command line configures: an absent option has its documented default, a single value
+    holds for every set, several values are one per set.  None when the lists do not fit together."""
+    d = _source_defaults()
+    lists = {k: (opts[k] if opts.get(k) is not None else [d[k]]) for k in FLAG}
+    multi = {len(v) for v in lists.values() if len(v) != 1}
+    if len(multi) > 1:
+        return None
+    n = multi.pop() if multi else 1
+    sets = []
+    for i in range(n):
+        g = {k: (v[i] if len(v) != 1 else v[0]) for k, v in lists.items()}
+        mode = "none" if g["enzyme"] == "no_enzyme" else eff_mode(g["digestion"])
+        sets.append({"enzyme": g["enzyme"], "mode": mode, "min": g["min"], "max": g["max"], "mc": g["mc"],
+                     "special": [] if g["special"] == "none" else list(g["special"]),
+                     "concat": not opts["contains_decoys"]})
+    return sets
+
+
+def expected_per_protein(case, sets, rules, ibaq):
+    """protein identifier -> the keys the rule gives it under the configured parameter sets (union over the sets;
+    the iBAQ settings when `ibaq`)"""
+    want = {}
+    for f in case["files"]:
+        for st in sets:
+            r = rules[st["enzyme"]]
+            pre, npost, post = list(r["pre"]), list(r["not_post"]), list(r["post"])
+            recs = []
+            for pid, seq in f:
+                recs.append((pid, seq))
+                if st["concat"]:
+                    recs.append(("REV__" + pid, decoy(seq, st["special"])))
+            for pid, seq in recs:
+                if ibaq:
+                    peps = spec(seq, max(6, st["min"]), min(30, st["max"]), pre, npost, post, 0, False, "full")
+                else:
+                    peps = spec(seq, max(st["min"], 1), st["max"], pre, npost, post, st["mc"], True, st["mode"])
+                    if st["mode"] == "none":
+                        peps = {p[:6] for p in peps}
+                want.setdefault(pid, set()).update(peps)
+    return {k: v for k, v in want.items() if v}
+
+
+def params_fields(p):
+    return {"enzyme": p.enzyme, "digestion": p.digestion, "min": p.min_length, "max": p.max_length, "mc": p.cleavages,
+            "special": "".join(p.special_aas), "met": p.methionine_cleavage, "db": p.db, "hash": p.use_hash_key}
+
+
+def opt_argv(opts):
+    argv = []
+    for k in FLAG:
+        if opts.get(k) is not None:
+            argv += [FLAG[k], *[str(x) for x in opts[k]]]
+    if opts["contains_decoys"]:
+        argv.append("--fasta_contains_decoys")
+    return argv
+
+
 ALL_RUNS = [
     {"mode": mode, "min": mn, "max": mx, "mc": mc, "met": met}
     for mode in MODES
@@ -103,6 +205,7 @@ class P(Prop):
     quick_cases = 30000
     thorough_cases = 200000
     chunk = 1000
+    config_share = 0.07  # fraction of generated cases that exercise the configured digestion (kind "config")
     rule = (
         "one case = protein sequence (length 0-14 over a per-enzyme 5-letter alphabet: its pre/not_post/post residues, M, "
         "one neutral; 70% start with M when Met cleavage is on) x every enzyme of ENZYME_CLEAVAGE_RULES x 1-3 parameter runs "
@@ -118,6 +221,8 @@ class P(Prop):
 
     # ------------------------------------------------------------------ generation
     def gen_case(self, rng, tier):
+        if rng.random() < self.config_share:
+            return self._gen_config(rng, tier)
         rules = rule_table()
         names = list(rules)
         enzyme = rng.choice(names)
@@ -165,6 +270,8 @@ class P(Prop):
 
     # ------------------------------------------------------------------ implementation
     def run_impl(self, case):
+        if case.get("kind") == "config":
+            return self._run_config(case)
         from picked_group_fdr import digest
 
         seq = case["seq"]
@@ -186,6 +293,8 @@ class P(Prop):
 
     # ------------------------------------------------------------------ model
     def model_request(self, case, impl_out):
+        if case.get("kind") == "config":
+            return self._config_request(case)
         reqs = [
             {"op": "digest", "seq": case["seq"], "enzyme": case["enzyme"], "mode": r["mode"], "min": r["min"], "max": r["max"], "mc": r["mc"], "met": r["met"]}
             for r in case["runs"]
@@ -194,6 +303,8 @@ class P(Prop):
         return reqs
 
     def model_view(self, case, resp, impl_out):
+        if case.get("kind") == "config":
+            return self._config_view(case, resp)
         *runs, st = resp
         if st.get("err") == "unknown_enzyme" and all(r.get("err") == "unknown_enzyme" for r in runs):
             return {"err": "unknown_enzyme"}
@@ -209,6 +320,8 @@ class P(Prop):
     def oracle(self, case, impl_out):
         if not isinstance(impl_out, dict):
             return "no output"
+        if case.get("kind") == "config":
+            return self._config_oracle(case, impl_out)
         if impl_out.get("err") == "unknown_enzyme":
             return None if case["enzyme"] not in rule_table() else "known enzyme rejected"
         # the rule comes from the SOURCE TEXT of the enzyme table (ast, as harness/tables.py reads it), not from what
@@ -245,6 +358,8 @@ class P(Prop):
 
     # ------------------------------------------------------------------ bookkeeping
     def nontrivial(self, case, impl_out):
+        if case.get("kind") == "config":
+            return self._config_nontrivial(case, impl_out)
         if not isinstance(impl_out, dict) or "runs" not in impl_out:
             return False
         seq = case["seq"]
@@ -252,6 +367,8 @@ class P(Prop):
         return has_site and any(o.get("peptides") for o in impl_out["runs"])
 
     def features(self, case, impl_out):
+        if case.get("kind") == "config":
+            return self._config_features(case, impl_out)
         f = []
         n = len(case["seq"])
         f.append("len=%s" % (n if n < 3 else "3-7" if n <= 7 else "8-14"))
@@ -287,6 +404,9 @@ class P(Prop):
         return f
 
     def shrink(self, case):
+        if case.get("kind") == "config":
+            yield from self._config_shrink(case)
+            return
         runs, seq = case["runs"], case["seq"]
         if len(runs) > 1:
             for i in range(len(runs)):
@@ -298,3 +418,408 @@ class P(Prop):
                 yield {"seq": seq, "enzyme": case["enzyme"], "runs": runs[:i] + [dict(r, mc=r["mc"] - 1)] + runs[i + 1 :]}
             if r["min"] > 1:
                 yield {"seq": seq, "enzyme": case["enzyme"], "runs": runs[:i] + [dict(r, min=r["min"] - 1)] + runs[i + 1 :]}
+
+    # ================================================================== kind "config": the digestion as configured
+    def _gen_config(self, rng, tier):
+        rules = rule_table()
+        names = list(rules)
+        nsets = rng.choice([1, 1, 1, 2, 2, 3])
+        enzymes = []
+        for _ in range(nsets):
+            e = rng.choice(names)
+            if rng.random() < 0.35:
+                e = rng.choice(["trypsin", "lys-n", "asp-n", "chymotrypsin+", "lys-c"])
+            if rng.random() < 0.01:
+                e = "not-an-enzyme"
+            enzymes.append(e)
+
+        def lst(make, p_absent=0.25, p_single=0.5):
+            if rng.random() < p_absent:
+                return None
+            if nsets > 1 and rng.random() < 0.02:  # lists that do not fit together (ValueError)
+                return [make() for _ in range(nsets + 1)]
+            if rng.random() < p_single:
+                return [make()]
+            return [make() for _ in range(nsets)]
+
+        opts = {
+            "enzyme": None if rng.random() < 0.2 else (enzymes if rng.random() < 0.8 else enzymes[:1]),
+            "digestion": lst(lambda: rng.choice(["full", "full", "full", "full", "semi", "semi", "semi", "none"]) if rng.random() > 0.02 else rng.choice(["Full", "semi-specific"])),
+            "min": lst(lambda: rng.choice([1, 1, 2, 3, 5, 6, 7]) if rng.random() > 0.03 else 0),
+            "max": lst(lambda: rng.choice([3, 5, 8, 12, 29, 30, 31, 40, 60])),
+            "mc": lst(lambda: rng.choice([0, 0, 0, 1, 1, 2, 3]), p_absent=0.2),
+            "special": lst(lambda: rng.choice(["KR", "KR", "none", "K", "R", "RK"]) if rng.random() > 0.03 else ""),
+            "contains_decoys": rng.random() < 0.5,
+        }
+        # residues: the site residues of the configured enzymes (default enzyme when the option is absent), M, neutrals
+        used = opts["enzyme"] or [_source_defaults()["enzyme"]]
+        site_res = []
+        for e in used:
+            r = rules.get(e, rules["trypsin"])
+            site_res += list(r["pre"][:3]) + list(r["post"][:2]) + list(r["not_post"][:1])
+        site_res = site_res or ["K"]
+        neutrals = [x for x in NEUTRALS if x not in site_res]
+        p_site = rng.choice([0.1, 0.15, 0.25, 0.4])
+
+        def protein():
+            n = rng.choice([1, 2, 3, 5, 8, 9, 12, 14, 17, 20, 24, 28, 33, 40])
+            s = "".join(rng.choice(site_res) if rng.random() < p_site else rng.choice(neutrals) for _ in range(n))
+            if rng.random() < 0.5:
+                s = "M" + s[1:]
+            if rng.random() < 0.06:
+                k = rng.randrange(n)
+                s = s[:k] + rng.choice("UX") + s[k + 1 :]
+            return s
+
+        ids = list(ID_POOL)
+        rng.shuffle(ids)
+        nprot = rng.choice([1, 1, 2, 2, 3, 4])
+        prots = [[ids[i], protein()] for i in range(nprot)]
+        if nprot >= 2 and rng.random() < 0.5:
+            k = rng.randrange(1, nprot)
+            files = [prots[:k], prots[k:]]
+        else:
+            files = [prots]
+        # DigestionParams(...) calls: the first `npos` arguments positionally, any subset of the others by keyword
+        ctor = []
+        for _ in range(rng.choice([1, 2, 2])):
+            npos = rng.choice([0, 0, 0, 1, 2, 5, 7])
+            p_omit = rng.choice([0.45, 0.45, 0.8, 1.0])
+            args = {}
+            for i, k in enumerate(SIG):
+                if i >= npos and rng.random() < p_omit:
+                    args[k] = None
+                elif k == "enzyme":
+                    args[k] = rng.choice(names)
+                elif k == "digestion":
+                    args[k] = rng.choice(["full", "semi", "none"])
+                elif k == "min":
+                    args[k] = rng.choice([0, 0, 1, 2, 6, 7, 9])
+                elif k == "max":
+                    args[k] = rng.choice([0, 1, 5, 30, 60, 61])
+                elif k == "mc":
+                    args[k] = rng.choice([0, 0, 0, 1, 2, 3])
+                elif k == "special":
+                    args[k] = rng.choice(["KR", "none", "", "K"])
+                else:
+                    args[k] = rng.random() < 0.5
+            ctor.append({"args": args, "npos": npos})
+        if tier == "thorough":
+            combos = [list(c) for c in COMBOS]
+        else:
+            combos = [list(c) for c in rng.sample(COMBOS, 2)]
+            if rng.random() < 0.5 and [False, True, True] not in combos:
+                combos.append([False, True, True])
+        return {"kind": "config", "opts": opts, "files": files, "ctor": ctor, "combos": combos,
+                "width": rng.choice([60, 60, 7, 1000]), "desc": rng.random() < 0.5}
+
+    # ------------------------------------------------------------------ implementation
+    @staticmethod
+    def _write_fasta(case, d):
+        paths = []
+        w = case["width"]
+        for i, f in enumerate(case["files"]):
+            p = os.path.join(d, f"db{i}.fasta")
+            with open(p, "w") as fh:
+                for pid, seq in f:
+                    fh.write(">" + pid + (" some protein OS=x" if case["desc"] else "") + "\n")
+                    for k in range(0, len(seq), w):
+                        fh.write(seq[k : k + w] + "\n")
+            paths.append(p)
+        return paths
+
+    @staticmethod
+    def _invert(m):
+        per = {}
+        for pep, prots in m.items():
+            for pr in prots:
+                per.setdefault(pr, set()).add(pep)
+        return {k: sorted(v) for k, v in per.items()}
+
+    @staticmethod
+    def _read_rows(path, delimiter):
+        with open(path, newline="") as fh:
+            return list(csv.reader(fh, delimiter=delimiter))
+
+    def _errname(self, e, case):
+        from picked_group_fdr import digest
+
+        if isinstance(e, KeyError):
+            known = set(digest.ENZYME_CLEAVAGE_RULES)
+            used = (case["opts"].get("enzyme") or [])
+            if any(x not in known for x in used):
+                return "unknown_enzyme"
+            raise e
+        return {IndexError: "index_error", AttributeError: "attribute_error", ValueError: "value_error"}[type(e)]
+
+    def _run_config(self, case):
+        from picked_group_fdr import digest
+        from picked_group_fdr import digestion_params as dp
+
+        out = {}
+        # --- DigestionParams(...) with a subset of its arguments
+        ctor = []
+        for c in case["ctor"]:
+            pos = [c["args"][k] for k in SIG[: c["npos"]]]
+            kw = {KW[k]: c["args"][k] for k in SIG[c["npos"] :] if c["args"][k] is not None}
+            ctor.append(params_fields(dp.DigestionParams(*pos, **kw)))
+        out["ctor"] = ctor
+        # --- the options through the real parser, then get_digestion_params_list
+        argv_opts = opt_argv(case["opts"])
+
+        def fresh():
+            apars = argparse.ArgumentParser()
+            dp.add_digestion_arguments(apars)
+            return dp.get_digestion_params_list(apars.parse_args(argv_opts))
+
+        try:
+            out["list"] = {"params": [params_fields(p) for p in fresh()]}
+        except ValueError as e:
+            out["list"] = {"err": self._errname(e, case)}
+        with tempfile.TemporaryDirectory(prefix="c08_") as d:
+            paths = self._write_fasta(case, d)
+            # --- in process: the map of the configured parameter sets, the iBAQ numbers on fresh objects
+            try:
+                res = digest.get_peptide_to_protein_map_from_params(paths, fresh())
+                out["map"] = {"proteins": self._invert(res[0] if isinstance(res, tuple) else res)}
+            except (ValueError, KeyError, IndexError) as e:
+                out["map"] = {"err": self._errname(e, case)}
+            try:
+                cnt = digest.get_num_ibaq_peptides_per_protein(paths, fresh())
+                out["ibaq"] = {"counts": {k: int(v) for k, v in cnt.items()}}
+            except (ValueError, KeyError, IndexError) as e:
+                out["ibaq"] = {"err": self._errname(e, case)}
+            # --- the command line tool, one invocation per combination of output options
+            cli = []
+            for n, (wp, wm, wi) in enumerate(case["combos"]):
+                pf, mf, bf = (os.path.join(d, f"{x}{n}") for x in ("prosit.csv", "map.tsv", "ibaq.tsv"))
+                argv = ["digest", "--fasta", *paths, *argv_opts]
+                argv += (["--prosit_input", pf] if wp else []) + (["--peptide_protein_map", mf] if wm else [])
+                argv += ["--ibaq_map", bf] if wi else []
+                old = sys.argv
+                sys.argv = argv
+                try:
+                    digest.main(argv[1:])
+                except (ValueError, KeyError, IndexError, AttributeError) as e:
+                    cli.append({"err": self._errname(e, case)})
+                    continue
+                finally:
+                    sys.argv = old
+                r = {"prosit": None, "map": None, "ibaq": None}
+                if wp and os.path.exists(pf):
+                    rows = self._read_rows(pf, ",")
+                    rows2 = self._read_rows(pf.replace(".csv", "_with_proteins.csv"), ",")
+                    peps = [x[0] for x in rows[1:]]
+                    uniq = list(dict.fromkeys(peps))
+                    ok = rows[:1] == [["modified_sequence", "collision_energy", "precursor_charge"]]
+                    ok = ok and rows2[:1] == [["modified_sequence", "collision_energy", "precursor_charge", "protein"]]
+                    ok = ok and rows[1:] == [[p, "30", str(z)] for p in uniq for z in (2, 3, 4)]
+                    ok = ok and [x[:3] for x in rows2[1:]] == rows[1:] and all(len(x) == 4 for x in rows2[1:])
+                    ok = ok and all(len({x[3] for x in rows2[1:] if x[0] == p}) == 1 for p in uniq)
+                    r["prosit"] = {"peptides": sorted(set(peps)), "wellformed": ok,
+                                   "proteins": {x[0]: x[3] for x in rows2[1:] if len(x) == 4}}
+                if wm and os.path.exists(mf):
+                    rows = self._read_rows(mf, "\t")
+                    r["map"] = self._invert({x[0]: x[1].split(";") for x in rows})
+                if wi and os.path.exists(bf):
+                    rows = self._read_rows(bf, "\t")
+                    r["ibaq"] = {x[0]: int(x[1]) for x in rows}
+                cli.append(r)
+            out["cli"] = cli
+        return out
+
+    # ------------------------------------------------------------------ model
+    def _config_request(self, case):
+        reqs = [{"op": "c08_ctor", "args": c["args"]} for c in case["ctor"]]
+        reqs.append({"op": "c08_list", "opts": case["opts"]})
+        reqs.append({"op": "c08_map", "opts": case["opts"], "files": case["files"], "ibaq": False})
+        reqs.append({"op": "c08_map", "opts": case["opts"], "files": case["files"], "ibaq": True})
+        for wp, wm, wi in case["combos"]:
+            reqs.append({"op": "c08_main", "opts": case["opts"], "files": case["files"], "prosit": wp, "map": wm, "ibaq": wi})
+        return reqs
+
+    def _config_view(self, case, resp):
+        nc = len(case["ctor"])
+        ctor, lst, mp, ib, cli = resp[:nc], resp[nc], resp[nc + 1], resp[nc + 2], resp[nc + 3 :]
+
+        def per(x):
+            return {k: sorted(set(v)) for k, v in x if v}
+
+        out = {"ctor": ctor, "list": lst}
+        out["map"] = mp if "err" in mp else {"proteins": per(mp["proteins"])}
+        out["ibaq"] = ib if "err" in ib else {"counts": {k: len(set(v)) for k, v in ib["proteins"] if v}}
+        view = []
+        for r in cli:
+            if "err" in r or "proto_err" in r:
+                view.append(r)
+                continue
+            v = {"prosit": None, "map": None, "ibaq": None}
+            if r["prosit"] is not None:
+                v["prosit"] = {"peptides": sorted({x[0] for x in r["prosit"]}), "wellformed": True,
+                               "proteins": {x[0]: x[1] for x in r["prosit"]}}
+            if r["map"] is not None:
+                v["map"] = per(r["map"])
+            if r["ibaq"] is not None:
+                v["ibaq"] = {k: n for k, n in r["ibaq"]}
+            view.append(v)
+        out["cli"] = view
+        return out
+
+    # ------------------------------------------------------------------ the property on the configured digestion
+    def _config_oracle(self, case, out):
+        rules = _source_rules()
+        sets = configured_sets(case["opts"])
+        results = [("get_peptide_to_protein_map_from_params", out["map"]), ("get_num_ibaq_peptides_per_protein", out["ibaq"])]
+        results += [("digest tool, outputs prosit/map/ibaq=%s" % c, r) for c, r in zip(case["combos"], out["cli"])]
+        if sets is None:  # option lists of unequal length: no configuration at all
+            bad = [w for w, r in results if r.get("err") != "value_error"]
+            return ("option lists of unequal length were accepted by " + bad[0]) if bad else None
+        if any(st["enzyme"] not in rules for st in sets):
+            bad = [w for w, r in results if "err" not in r]
+            return ("an enzyme outside the table was accepted by " + bad[0]) if bad else None
+        zero_min = any(st["min"] == 0 for st in sets)
+        want = expected_per_protein(case, sets, rules, False)
+        want_ibaq = {k: len(v) for k, v in expected_per_protein(case, sets, rules, True).items()}
+        hashed = any(st["mode"] == "none" for st in sets)
+        cfg = "; ".join(
+            "%s %s %d-%d mc=%d special=%s %s" % (st["enzyme"], st["mode"], st["min"], st["max"], st["mc"],
+                                                 "".join(st["special"]) or "-", "concat" if st["concat"] else "target")
+            for st in sets)
+        seqs = {pid: seq for f in case["files"] for pid, seq in f}
+
+        def cmp_map(where, got):
+            got = {k: set(v) - ({""} if zero_min else set()) for k, v in got.items()}
+            got = {k: v for k, v in got.items() if v}
+            for pid in sorted(set(got) | set(want)):
+                g, w = got.get(pid, set()), want.get(pid, set())
+                if g != w:
+                    return (f"{where}: protein {pid} ({seqs.get(pid.replace('REV__', '', 1), '?')}) configured as [{cfg}] is listed "
+                            f"with peptides the rule does not allow {sorted(g - w)[:6]}, missing {sorted(w - g)[:6]}")
+            return None
+
+        def cmp_ibaq(where, got):
+            got = {k: v for k, v in got.items() if v}
+            if got != want_ibaq:
+                diff = {k: (got.get(k, 0), want_ibaq.get(k, 0)) for k in set(got) | set(want_ibaq) if got.get(k, 0) != want_ibaq.get(k, 0)}
+                return f"{where}: iBAQ peptide numbers (got, fully specific 6-30 without missed cleavage) differ: {dict(sorted(diff.items()))} for [{cfg}]"
+            return None
+
+        if "err" in out["map"]:
+            return "get_peptide_to_protein_map_from_params raised %s for [%s]" % (out["map"]["err"], cfg)
+        why = cmp_map("get_peptide_to_protein_map_from_params", out["map"]["proteins"])
+        if why:
+            return why
+        if "err" in out["ibaq"]:
+            return "get_num_ibaq_peptides_per_protein raised %s for [%s]" % (out["ibaq"]["err"], cfg)
+        why = cmp_ibaq("get_num_ibaq_peptides_per_protein", out["ibaq"]["counts"])
+        if why:
+            return why
+        for (wp, wm, wi), r in zip(case["combos"], out["cli"]):
+            where = "digest tool with " + " ".join(n for n, b in (("--prosit_input", wp), ("--peptide_protein_map", wm), ("--ibaq_map", wi)) if b)
+            if "err" in r:
+                if r["err"] == "attribute_error" and hashed and (wp or wm):
+                    continue  # the tool cannot write a hash-key (non-specific) map at all: no peptide set to judge
+                return f"{where} raised {r['err']} for [{cfg}]"
+            for name, b in (("prosit", wp), ("map", wm), ("ibaq", wi)):
+                if b and r[name] is None:
+                    return f"{where}: the {name} file was not written"
+            if wm:
+                why = cmp_map(where, r["map"])
+                if why:
+                    return why
+            if wi:
+                why = cmp_ibaq(where, r["ibaq"])
+                if why:
+                    return why
+            if wp:
+                allp = set().union(*want.values()) if want else set()
+                wantp = {p for p in allp if len(p) <= 30 and "U" not in p and "X" not in p}
+                gotp = set(r["prosit"]["peptides"]) - ({""} if zero_min else set())
+                if gotp != wantp:
+                    return (f"{where}: the Prosit input lists peptides the rule does not allow {sorted(gotp - wantp)[:6]}, "
+                            f"misses {sorted(wantp - gotp)[:6]} for [{cfg}]")
+                for pep, pr in r["prosit"]["proteins"].items():
+                    if pep and pep not in want.get(pr, set()):
+                        return f"{where}: the Prosit input names protein {pr} for {pep}, which the rule does not cut from it [{cfg}]"
+        return None
+
+    # ------------------------------------------------------------------ bookkeeping
+    def _config_nontrivial(self, case, out):
+        if not isinstance(out, dict) or "map" not in out or "proteins" not in out["map"]:
+            return False
+        return any(len(v) >= 2 for v in out["map"]["proteins"].values())
+
+    def _config_features(self, case, out):
+        f = ["kind=config"]
+        o = case["opts"]
+        for k in FLAG:
+            f.append("opt_%s=%s" % (k, "absent" if o.get(k) is None else ("single" if len(o[k]) == 1 else "list")))
+        if o.get("mc") is not None and 0 in o["mc"]:
+            f.append("cfg_mc=0")
+        if o.get("min") is not None and 0 in o["min"]:
+            f.append("cfg_min=0")
+        f.append("db=%s" % ("target" if o["contains_decoys"] else "concat"))
+        for c in case["ctor"]:
+            f.append("ctor_npos=%d" % c["npos"])
+            for k in ("min", "max", "mc"):
+                if c["args"][k] == 0:
+                    f.append("ctor_%s=0" % k)
+            if all(v is None for v in c["args"].values()):
+                f.append("ctor_all_defaults")
+        if not isinstance(out, dict) or "list" not in out:
+            return f + ["cfg_exc"]
+        if "err" in out["list"]:
+            f.append("cfg_err=" + out["list"]["err"])
+        else:
+            f.append("cfg_sets=%d" % len(out["list"]["params"]))
+            for p in out["list"]["params"]:
+                f.append("cfg_mode=%s" % eff_mode(p["digestion"]))
+        if "err" in out.get("map", {}):
+            f.append("cfg_map_err=" + out["map"]["err"])
+        for c, r in zip(case["combos"], out.get("cli", [])):
+            f.append("cli=%s%s%s" % tuple("pmi"[i] if c[i] else "-" for i in range(3)))
+            if "err" in r:
+                f.append("cli_err=" + r["err"])
+            elif r.get("ibaq"):
+                f.append("cli_ibaq_nonempty")
+        sets = configured_sets(o)
+        if sets and any(st["mc"] > 0 or st["min"] < 6 or st["max"] > 30 or st["mode"] == "semi" for st in sets):
+            f.append("cfg_differs_from_ibaq_settings")
+        return f
+
+    def _config_shrink(self, case):
+        def with_(**kw):
+            c = dict(case)
+            c.update(kw)
+            return c
+
+        if len(case["combos"]) > 1:
+            for i in range(len(case["combos"])):
+                yield with_(combos=[case["combos"][i]])
+        if case["ctor"]:
+            yield with_(ctor=[])
+        files = case["files"]
+        if len(files) > 1:
+            for i in range(len(files)):
+                yield with_(files=files[:i] + files[i + 1 :])
+        for i, fl in enumerate(files):
+            if len(fl) > 1:
+                for j in range(len(fl)):
+                    yield with_(files=files[:i] + [fl[:j] + fl[j + 1 :]] + files[i + 1 :])
+        o = case["opts"]
+        n = max([len(o[k]) for k in FLAG if o.get(k) is not None] + [1])
+        if n > 1:  # drop one parameter set
+            for i in range(n):
+                yield with_(opts={k: ((v[:i] + v[i + 1 :]) if isinstance(v, list) and len(v) == n else v) for k, v in o.items()})
+        for k in FLAG:
+            if o.get(k) is not None:
+                yield with_(opts=dict(o, **{k: None}))
+        if not o["contains_decoys"]:
+            yield with_(opts=dict(o, contains_decoys=True))
+        if case["desc"] or case["width"] != 1000:
+            yield with_(desc=False, width=1000)
+        for i, fl in enumerate(files):
+            for j, (pid, seq) in enumerate(fl):
+                for cut in (seq[: len(seq) // 2], seq[len(seq) // 2 :], seq[1:], seq[:-1]):
+                    if 1 <= len(cut) < len(seq):
+                        yield with_(files=files[:i] + [fl[:j] + [[pid, cut]] + fl[j + 1 :]] + files[i + 1 :])
